@@ -35,7 +35,7 @@ RELS = {
     "cp_apr_pqnr": ["R1", "R1s", "R2", "R2d", "R3", "R4", "R5"],
     "hosvd": ["R1p", "R1s", "R2", "R6", "R7"],
     "tucker_als": ["R1", "R1p", "R1s", "R2", "R4", "R5", "R6", "R7"],
-    "gcp_lbfgsb": ["R1", "R1p", "R1s", "R2", "R3", "R4"],
+    "gcp_lbfgsb": ["R1", "R1p", "R1s", "R2", "R3", "R4", "R7"],
 }
 # R1/R1p/R2/R3 vary only what the simulator owns (seed, call history, output sink, clock): the arithmetic of
 # the run is the same, so the results must be bit-identical (0.0). A print-only branch that touches the
@@ -65,9 +65,13 @@ class EngineC18:
         sw = st.get("swarm")
         g = st.get("gen")
         res = RunResult()
-        alg = weighted(sw, [("cp_als", 4), ("cp_apr_mu", 2), ("cp_apr_pdnr", 3), ("cp_apr_pqnr", 1), ("hosvd", 2), ("tucker_als", 3), ("gcp_lbfgsb", 2)])
-        N = weighted(sw, [(2, 1), (3, 5), (4, 1)]) if alg != "gcp_lbfgsb" else weighted(sw, [(2, 2), (3, 3)])
+        alg = weighted(sw, [("cp_als", 4), ("cp_apr_mu", 2), ("cp_apr_pdnr", 3), ("cp_apr_pqnr", 1), ("hosvd", 2), ("tucker_als", 3), ("gcp_lbfgsb", 3)])
+        N = weighted(sw, [(2, 1), (3, 5), (4, 1)]) if alg != "gcp_lbfgsb" else weighted(sw, [(2, 2), (3, 3), (4, 3)])
         shape = [sw.randint(2, 4) for _ in range(N)]
+        if N == 4 and sw.random() < 0.6:
+            # lopsided: one mode clearly longer than the others (where the work is split then depends on the labelling)
+            shape = [sw.randint(2, 3) for _ in range(N)]
+            shape[sw.choice([0, 0, 3, 3, 1, 2])] = sw.randint(6, 10)
         size = int(np.prod(shape))
         apr = alg.startswith("cp_apr")
         x = np.zeros(shape)
@@ -138,6 +142,9 @@ class EngineC18:
                 d = sw.randrange(N)
                 fmats[d][sw.randrange(shape[d]), :] = 0.0  # an all-zero row: the model is zero on a whole slice
             init["factors"] = [enc(f) for f in fmats]
+        # a convergence tolerance that can actually stop the run: used by the bit-identity relations only (the
+        # tolerance-based relations keep stoptol=0 so that iteration counts cannot differ by rounding)
+        init["stoptol"] = sw.choice([0.0, 0.0, 1e-4, 1e-2, 0.1]) if alg in ("cp_als", "tucker_als") or apr else 0.0
         init["dimorder"] = None
         if alg in ("cp_als", "hosvd", "tucker_als") and sw.random() < 0.4:
             d = list(range(N))
@@ -147,6 +154,8 @@ class EngineC18:
         rels = list(RELS[alg])
         if init.get("init_kind") != "random":
             rels = [r for r in rels if r not in ("R4",)]
+        if alg == "gcp_lbfgsb" and init.get("init_kind") != "explicit":
+            rels = [r for r in rels if r != "R7"]
         if alg == "hosvd" or init.get("init_kind") == "explicit":
             rels = [r for r in rels if r != "R1"] + (["R1"] if alg != "hosvd" else [])
         g.shuffle(rels)
@@ -251,6 +260,10 @@ class EngineC18:
             inv = {old: new for new, old in enumerate(perm)}
             dimorder = [inv[d] for d in dimorder]
         printitn = variant.get("printitn", 0)
+        stoptol = float(init.get("stoptol", 0.0)) if variant.get("use_stoptol") else 0.0
+        if stoptol > 0.0 and "maxiters" in init:
+            init = dict(init)
+            init["maxiters"] = init["maxiters"] + 4  # room for the convergence test to be what ends the run
         clock = SimClock(variant.get("clock") or {"tick": 1e-3})
         out: Dict[str, Any] = {}
         with World(clock=clock, np_seed=variant.get("np_seed", init["np_seed"]), arpack_seed=init["arpack_seed"]) as w:
@@ -262,7 +275,7 @@ class EngineC18:
                 w.eig_gaps.clear()
             if alg == "cp_als":
                 g0 = ttb.ktensor([f.copy() for f in guess]) if isinstance(guess, list) else guess
-                M, Minit, info = ttb.cp_als(data, init["rank"], stoptol=0.0, maxiters=init["maxiters"], dimorder=dimorder, init=g0, printitn=printitn, fixsigns=init["fixsigns"])
+                M, Minit, info = ttb.cp_als(data, init["rank"], stoptol=stoptol, maxiters=init["maxiters"], dimorder=dimorder, init=g0, printitn=printitn, fixsigns=init["fixsigns"])
                 out.update(full=M.full().data.copy(), fit=float(info["fit"]), iters=int(info["iters"]), guess_out=[f.copy() for f in Minit.factor_matrices], guess_w=Minit.weights.copy())
             elif alg.startswith("cp_apr"):
                 g0 = ttb.ktensor([f.copy() for f in guess]) if isinstance(guess, list) else guess
@@ -270,7 +283,7 @@ class EngineC18:
                     data,
                     init["rank"],
                     algorithm=alg.split("_")[-1],
-                    stoptol=0.0,
+                    stoptol=stoptol,
                     stoptime=variant.get("stoptime", 1e6),
                     maxiters=init["maxiters"],
                     maxinneriters=init["maxinneriters"],
@@ -296,7 +309,7 @@ class EngineC18:
                 if perm is not None:
                     rk = [rk[p] for p in perm]
                 g0 = [None if f is None else f.copy() for f in guess] if isinstance(guess, list) else guess
-                T, Uinit, info = ttb.tucker_als(data, rk, stoptol=0.0, maxiters=init["maxiters"], dimorder=dimorder, init=g0, printitn=printitn)
+                T, Uinit, info = ttb.tucker_als(data, rk, stoptol=stoptol, maxiters=init["maxiters"], dimorder=dimorder, init=g0, printitn=printitn)
                 out.update(full=T.full().data.copy(), fit=float(info["fit"]), iters=int(info["iters"]), guess_out=[None if u is None else np.array(u, copy=True) for u in Uinit])
             else:
                 from pyttb.gcp.handles import Objectives
@@ -457,7 +470,20 @@ class EngineC18:
         elif op == "R7":
             if len(step["perm"]) != len(init["shape"]) or sorted(step["perm"]) != list(range(len(init["shape"]))):
                 raise Skip("perm_mismatch")
+            if alg == "gcp_lbfgsb" and init.get("init_kind") != "explicit":
+                # gcp_opt re-normalises a guess that is passed back (not idempotent in the last bits, see R4)
+                raise Skip("gcp_relabelling_needs_explicit_guess")
             var = {"perm": step["perm"]}
+        if op in ("R1", "R1p", "R1s", "R2", "R3") and init.get("stoptol"):
+            base_v = dict(base_v, use_stoptol=True)
+            var = dict(var, use_stoptol=True)
+            res.bump("probe:convergence_test_active")
+        if op == "R7" and alg == "gcp_lbfgsb":
+            # L-BFGS-B's line search takes discrete decisions; the relabelled problem is the same problem with its
+            # variables listed in another order, which agrees to rounding only while few such decisions were taken
+            init = dict(init)
+            init["maxiter"] = min(init["maxiter"], 2)
+            tol = 1e-6
         try:
             base = self._call(init, base_v)
         except AssertionError as e:
@@ -519,6 +545,14 @@ class EngineC18:
                     d_self = self._rel(base["full"], pert["full"])
                 except Exception:  # noqa: BLE001
                     d_self = float("inf")
+                if d <= 100.0 * d_self and op != "R4":
+                    # an ill-conditioned problem is ill-conditioned under either representation / labelling / scale:
+                    # the variant run must be just as sensitive, or the sensitivity belongs to one code path only
+                    try:
+                        pert_v = self._call(init_p, var)
+                        d_self = min(d_self, self._rel(other["full"], pert_v["full"]))
+                    except Exception:  # noqa: BLE001
+                        pass
                 if d <= 100.0 * d_self:
                     raise Skip("ill_conditioned_problem")
             return V("same_model", f"relative difference {d:.3e} > {tol:g} between base and variant {step}")
